@@ -52,6 +52,12 @@ VerdictPm ==
 VerdictNc == Viol("WITNESS", IsUnit(Ev.un) /\ IsUnit(Ev.uf)) \cup
              (IF Ev.oc # "ok" THEN {"NEWCOMB_TOTAL"} ELSE Viol("NEWCOMB_NEAR_FK5", Deg(Ev.un, Ev.uf, 5, 3)))
 
+\* a loop A -> B -> C -> A through three equinoxes brings back the inclination and the longitude of perihelion
+\* (node + argument; each of them alone is ill-conditioned for nearly coplanar orbits)
+VerdictEl3 ==
+     Viol("ELEMENTS_LOOP", /\ Within(Ev.i2, Ev.i0, Dec(1, 5))
+                           /\ WithinMod(Add(Ev.a2, Ev.l2), Add(Ev.a0, Ev.l0), 360, Dec(1, 3)))
+
 VerdictEl ==
   IF Ev.w5 = 0 THEN {} ELSE
   \* node and argument of perihelion are ill-conditioned separately for nearly coplanar orbits (error ~ 1 / sin i):
@@ -65,7 +71,7 @@ VerdictEl ==
 \cup Viol("ELEMENTS_INCLINATION_CONTINUOUS", Le(Abs(Sub(Ev.i1, Ev.i0)), Dec(2, 1)))
 
 Verdict == CASE Ev.k = "pe" -> VerdictPe [] Ev.k = "pl" -> VerdictPl [] Ev.k = "rt" -> VerdictRt [] Ev.k = "pm" -> VerdictPm
-             [] Ev.k = "nc" -> VerdictNc [] Ev.k = "el" -> VerdictEl [] OTHER -> {"UNKNOWN_KIND"}
+             [] Ev.k = "nc" -> VerdictNc [] Ev.k = "el" -> VerdictEl [] Ev.k = "el3" -> VerdictEl3 [] OTHER -> {"UNKNOWN_KIND"}
 Init == TraceInit(0)
 Next == StepWith(Verdict, 0)
 Spec == Init /\ [][Next]_<<l, st>>
